@@ -538,6 +538,63 @@ fn mutate(r: &mut Rng, base: &[u8], other: &[u8]) -> (Vec<u8>, &'static str) {
     }
 }
 
+/// Structure-aware script damage: numbers a peer controls (thresholds, key counts, lock values)
+/// are replaced by extreme ones, or an extreme count is put in front of / behind a counting opcode.
+fn script_numbers(r: &mut Rng, base: &[u8]) -> (Vec<u8>, &'static str) {
+    // split into instructions: (offset, length, is small number)
+    let mut ins: Vec<(usize, usize, bool)> = vec![];
+    let mut i = 0;
+    while i < base.len() {
+        let op = base[i];
+        let (len, num) = match op {
+            0x00 | 0x4f | 0x51..=0x60 => (1, true),
+            0x01..=0x4b => (1 + op as usize, op <= 4),
+            0x4c if i + 1 < base.len() => (2 + base[i + 1] as usize, false),
+            0x4d if i + 2 < base.len() => (3 + u16::from_le_bytes([base[i + 1], base[i + 2]]) as usize, false),
+            _ => (1, false),
+        };
+        if i + len > base.len() {
+            break;
+        }
+        ins.push((i, len, num));
+        i += len;
+    }
+    const BIG: [&[u8]; 8] = [&[0x04, 0xff, 0xff, 0xff, 0x7f], &[0x04, 0x00, 0x00, 0x00, 0x40], &[0x04, 0x01, 0x00, 0x00, 0x08], &[0x03, 0xa0, 0x86, 0x01], &[0x03, 0xff, 0xff, 0x7f], &[0x02, 0xe8, 0x03], &[0x02, 0xff, 0x7f], &[0x05, 0xff, 0xff, 0xff, 0xff, 0x7f]];
+    let big = *r.pick(&BIG);
+    let nums: Vec<usize> = (0..ins.len()).filter(|k| ins[*k].2).collect();
+    match r.below(3) {
+        0 if !nums.is_empty() => {
+            let k = *r.pick(&nums);
+            let (o, l, _) = ins[k];
+            let mut v = base[..o].to_vec();
+            v.extend_from_slice(big);
+            v.extend_from_slice(&base[o + l..]);
+            (v, "script_number_extreme")
+        }
+        1 => {
+            // the script now ends in <count> <counting opcode>
+            let mut v = base.to_vec();
+            let tail = *r.pick(&[0x9cu8, 0xae, 0xaf, 0x87, 0xb1, 0xb2, 0xa2]);
+            if matches!(v.last(), Some(0x9c | 0xae | 0xaf | 0x87 | 0xac | 0xba)) && r.chance(1, 2) {
+                v.pop();
+            }
+            v.extend_from_slice(big);
+            v.push(tail);
+            (v, "script_extreme_count_tail")
+        }
+        _ => {
+            let mut v = big.to_vec();
+            v.push(*r.pick(&[0x9cu8, 0xae, 0x87, 0xb1, 0xb2]));
+            if r.chance(1, 2) {
+                let mut w = base.to_vec();
+                w.extend_from_slice(&v);
+                v = w;
+            }
+            (v, "script_extreme_count_only")
+        }
+    }
+}
+
 fn amplify(r: &mut Rng, leaf: &str) -> (String, &'static str) {
     match r.below(6) {
         5 => {
@@ -726,7 +783,7 @@ pub fn wire_case(ws: &WireSeeds, r: &mut Rng) -> WireCase {
         "script" => {
             let base = if ws.scripts.is_empty() { vec![0x51] } else { r.pick(&ws.scripts).clone() };
             let other = if ws.scripts.is_empty() { vec![0x51] } else { r.pick(&ws.scripts).clone() };
-            let (data, fault) = mutate(r, &base, &other);
+            let (data, fault) = if r.chance(1, 4) { script_numbers(r, &base) } else { mutate(r, &base, &other) };
             WireCase { kind, fault, data, aux: vec![] }
         }
         "txdata" => {
@@ -739,7 +796,14 @@ pub fn wire_case(ws: &WireSeeds, r: &mut Rng) -> WireCase {
             let mut ss = ss;
             let mut spk = spk;
             let fault;
-            match r.below(4) {
+            match r.below(5) {
+                4 if !wit.is_empty() => {
+                    // the script item of the witness (last, or the one before a control block)
+                    let i = if wit.len() >= 2 && wit[wit.len() - 1].len() >= 33 && (wit[wit.len() - 1].len() - 33) % 32 == 0 && wit[wit.len() - 1][0] & 0xfe == 0xc0 { wit.len() - 2 } else { wit.len() - 1 };
+                    let (m, f) = script_numbers(r, &wit[i].clone());
+                    wit[i] = m;
+                    fault = f;
+                }
                 0 if !wit.is_empty() => {
                     let i = r.below(wit.len() as u64) as usize;
                     let o = wit[(i + 1) % wit.len()].clone();
@@ -775,6 +839,40 @@ pub fn wire_case(ws: &WireSeeds, r: &mut Rng) -> WireCase {
                     let (m, f) = mutate(r, &spk.clone(), &ss);
                     spk = m;
                     fault = f;
+                }
+            }
+            if fault.starts_with("script_") && !wit.is_empty() {
+                // keep the commitment valid so that the damaged script is what gets decoded
+                use bitcoin::hashes::{sha256, Hash};
+                let last = wit[wit.len() - 1].clone();
+                if spk.len() == 34 && spk[0] == 0x00 {
+                    spk[2..].copy_from_slice(sha256::Hash::hash(&last).as_byte_array());
+                } else if spk.len() == 34 && spk[0] == 0x51 && wit.len() >= 2 && last.len() >= 33 && (last.len() - 33) % 32 == 0 {
+                    let script = &wit[wit.len() - 2];
+                    let mut k = crate::vm::tapleaf_hash(last[0] & 0xfe, script);
+                    for c in last[33..].chunks(32) {
+                        let mut h = [0u8; 32];
+                        h.copy_from_slice(c);
+                        k = crate::vm::tapbranch_hash(&k, &h);
+                    }
+                    let mut ik = [0u8; 32];
+                    ik.copy_from_slice(&last[1..33]);
+                    if let Ok(p) = bitcoin::secp256k1::XOnlyPublicKey::from_slice(&ik) {
+                        let t = crate::vm::taptweak_hash(&ik, Some(&k));
+                        let secp = bitcoin::secp256k1::Secp256k1::verification_only();
+                        if let Ok(sc) = bitcoin::secp256k1::Scalar::from_be_bytes(t) {
+                            if let Ok((q, par)) = p.add_tweak(&secp, &sc) {
+                                spk[2..].copy_from_slice(&q.serialize());
+                                let n = wit.len();
+                                wit[n - 1][0] = (last[0] & 0xfe) | (par == bitcoin::secp256k1::Parity::Odd) as u8;
+                            }
+                        }
+                    }
+                } else if spk.len() == 23 && ss.len() == 35 && ss[1] == 0x00 {
+                    // sh(wsh): scriptSig pushes the witness program
+                    ss[3..].copy_from_slice(sha256::Hash::hash(&last).as_byte_array());
+                    let h = bitcoin::hashes::hash160::Hash::hash(&ss[1..]);
+                    spk[2..22].copy_from_slice(h.as_byte_array());
                 }
             }
             let mut aux = vec![];
